@@ -214,6 +214,27 @@ def _flat_equal(a, b):
     return True
 
 
+_store_checked = {"ok": False}
+
+
+def _store(mod, path):
+    """Store a module the way nslc.py does (pickle.dump).  The first file written is read back
+    through the product's loader: if that no longer works the stored-module format has changed and
+    the harness is out of date (HARNESS-ERROR, never a VIOLATION)."""
+    with open(path, "wb") as f:
+        pickle.dump(mod, f)
+    if not _store_checked["ok"]:
+        from nsl import LinearIR
+
+        try:
+            LinearIR.FilesystemModuleLoader().Load(path)
+        except Exception as e:
+            raise core.HarnessError(
+                f"a module stored by the harness with pickle.dump is not loadable by the product's loader "
+                f"({type(e).__name__}: {e}); the stored-module format seems to have changed")
+        _store_checked["ok"] = True
+
+
 def _compile_inproc(src):
     from nsl import Compiler
 
@@ -430,6 +451,10 @@ def _execute(sc, store):
                     ref = reference(gen)
                     if ref[0] == "bad":
                         return done("discard", "reference-bad", ref[1])
+                    if status == "reject" and (mods[m].get("repeat_import") is not None or mods[m].get("umbrella")):
+                        # a diagnosed rejection of a repeated import line / of a module without functions
+                        # is a language-policy decision the property does not exclude
+                        return done("discard", "policy-rejected-module", why)
                     key = status[4:] if status.startswith("exc:") else status
                     return done(
                         "violation",
@@ -439,8 +464,7 @@ def _execute(sc, store):
                         f"placement={mods[m]['place']}",
                         finding_key=key,
                     )
-                with open(file_of(m), "wb") as f:
-                    pickle.dump(mod, f)
+                _store(mod, file_of(m))
                 inmem[m] = mod
             variants[m] = st.get("variant", 0)
             if not variants[m]:
@@ -504,6 +528,12 @@ def _execute(sc, store):
                 if added_and_imported:
                     bump("added_and_imported_rejected")
                     continue  # reading 2 of the statement: a duplicate-definition rejection
+                if variants and type(exc).__name__ not in ("RuntimeError", "KeyError", "AssertionError", "TypeError",
+                                                          "AttributeError", "RecursionError"):
+                    # a module was rebuilt after its importers were compiled: a linker that refuses such a
+                    # stale set with an error of its own is within the statement
+                    bump("stale_importers_refused_by_the_linker")
+                    continue
                 return done(
                     "violation",
                     "link-failed",
@@ -575,8 +605,9 @@ def _execute(sc, store):
             # ... and a VM of it stays in use: the first half of the history now, the rest after the
             # next program has been linked and run
             half = len(sc["hist"]) // 2
-            lvm, first = _observe(prog, sc, vm=None, part=(0, half))
-            live_vms[:] = live_vms[-1:] + [(prog, lvm, first, half, f"add={names_add}, generation {gen}")]
+            if half >= 1:
+                lvm, first = _observe(prog, sc, vm=None, part=(0, half))
+                live_vms[:] = live_vms[-1:] + [(prog, lvm, first, half, f"add={names_add}, generation {gen}")]
             alive.append((prog, obs, f"add={names_add}, generation {gen}, variants {dict(variants)}"))
             can = _canonical(prog)
             ck = "state"
@@ -643,10 +674,10 @@ def _link_nslr(sc, st, add, refmod, store, log, bump):
     mods = sc["modules"]
     root = mods[add[0]]["name"] + ".nslir"
     one = "OneModuleReference__.nslir"
-    with open(one, "wb") as f:
-        pickle.dump(refmod, f)
+    _store(refmod, one)
     n = 0
     decoy = None
+    decoy_probe = None
     if st["hs"] % 2 == 0 and len(mods) > 1:
         # the root module is started through a path into another directory that also holds
         # *other* builds of the imported modules (an old dist/ folder): imports are resolved
@@ -661,16 +692,23 @@ def _link_nslr(sc, st, add, refmod, store, log, bump):
             if dm is None:
                 decoy = None
                 break
-            with open(os.path.join("dist_old", mods[m]["name"] + ".nslir"), "wb") as f:
-                pickle.dump(dm, f)
+            _store(dm, os.path.join("dist_old", mods[m]["name"] + ".nslir"))
         if decoy:
-            bump("nslr_root_started_from_decoy_directory")
-            root = os.path.join(decoy, root)
+            # beyond-statement probe: C16 says "imported by name", not relative to what; the run through
+            # the decoy directory is tallied, the judged run uses the root in the current directory
+            decoy_probe = os.path.join(decoy, root)
 
-    def outcome(code, out, err):
+    def outcome(code, out, err, modarg=""):
         lines = [l for l in out.splitlines() if l.strip()]
         if code == 0:
-            return ["ok", lines[-1] if lines else ""]
+            last = lines[-1] if lines else ""
+            # the two commands differ in their MODULE argument only: whatever the tool prints about it
+            # (path, file name, stem) is not part of the result
+            for tok in sorted({modarg, os.path.basename(modarg), os.path.splitext(os.path.basename(modarg))[0],
+                               os.path.abspath(modarg)}, key=len, reverse=True):
+                if tok:
+                    last = last.replace(tok, "<MODULE>")
+            return ["ok", last]
         last = err.strip().splitlines()[-1] if err.strip() else ""
         return ["fail", last.split(":")[0].split(".")[-1]]
 
@@ -686,11 +724,14 @@ def _link_nslr(sc, st, add, refmod, store, log, bump):
             n += 1
             args = [str(int(h["args"][p]) if t == "int" else float(h["args"][p])) for p, t in f["params"]]
             tool = os.path.join(_env["tree"], "nslr.py")
-            exp = outcome(*_child([tool, "run", one, h["f"]] + args, store, st["hs"]))
+            exp = outcome(*_child([tool, "run", one, h["f"]] + args, store, st["hs"]), modarg=one)
             code, out, err = _child([tool, "run", root, h["f"]] + args, store, st["hs"])
-            got = outcome(code, out, err)
+            got = outcome(code, out, err, modarg=root)
             bump("link_nslr")
             log.add("nslr", root=root, fn=h["f"], hs=st["hs"], got=got)
+            if decoy_probe:
+                pr_ = outcome(*_child([tool, "run", decoy_probe, h["f"]] + args, store, st["hs"]), modarg=decoy_probe)
+                bump("probe_nslr_through_decoy_directory_" + ("same_as_reference" if pr_ == exp else "differs"))
             if got != exp:
                 key = _exc_key_from_text(err) if "Traceback" in err else "output"
                 return (
@@ -738,8 +779,7 @@ def _dup_step(sc, st, LinearIR, make_loader, host_module, guarded_link, Counting
     extra = {}
     addmods = [host_module(m, "file") for m in roots]
     if st["where"] == "imported":
-        with open("DupMod.nslir", "wb") as f:
-            pickle.dump(dmod, f)
+        _store(dmod, "DupMod.nslir")
         rsrc = 'import "DupMod";\nexport function dup_root(int a) -> int {\n  return dup_only(a);\n}\n'
         rmod, status, why = _compile_inproc(rsrc)
         if rmod is None:
@@ -848,7 +888,7 @@ def shrink_candidates(sc):
         c["steps"] = [s for i, s in enumerate(steps) if (s["op"] == "compile" and not s.get("variant")) or i in ks]
         yield c
     # 3. history
-    for keep in core.list_reductions(sc["hist"]):
+    for keep in core.list_reductions(sc["hist"], 2):
         yield dict(sc, hist=keep)
     # 4. functions nobody calls (and with them, empty modules)
     for i in reversed(range(len(sc["funcs"]))):
